@@ -629,6 +629,58 @@ static void run(void)
 			check_raw(BAD[i][0], 0, NULL, BAD[i][1]);
 		}
 	}
+	/* near-miss names: every valid member name with a character appended / removed / a blank appended / other letter case,
+	 * alone (with a string and with a boolean operand) and next to a valid matcher: all unknown names, all to be refused */
+	{
+		static const char *const VALID[] = {"equals", "equalsNot", "startsWith", "endsWith", "contains", "containsAllOf", "caseInsensitive"};
+		for (size_t v = 0; v < sizeof(VALID) / sizeof(VALID[0]); v++) {
+			char names[6][40];
+			size_t l = strlen(VALID[v]);
+			snprintf(names[0], sizeof(names[0]), "%sX", VALID[v]);
+			snprintf(names[1], sizeof(names[1]), "%s2", VALID[v]);
+			snprintf(names[2], sizeof(names[2]), "%s ", VALID[v]);
+			snprintf(names[3], sizeof(names[3]), "%.*s", (int)l - 1, VALID[v]);
+			snprintf(names[4], sizeof(names[4]), "%s", VALID[v]);
+			names[4][0] = (char)(names[4][0] - 32); /* first letter upper-case */
+			snprintf(names[5], sizeof(names[5]), "%s", VALID[v]);
+			for (size_t k = 0; k < l; k++) {
+				if (names[5][k] >= 'A' && names[5][k] <= 'Z') {
+					names[5][k] = (char)(names[5][k] + 32); /* all lower-case (differs for the camel-case names) */
+				}
+			}
+			for (int k = 0; k < 6; k++) {
+				if (strcmp(names[k], VALID[v]) == 0) {
+					continue;
+				}
+				bool is_other_valid = false;
+				for (size_t w = 0; w < sizeof(VALID) / sizeof(VALID[0]); w++) {
+					if (strcmp(names[k], VALID[w]) == 0) {
+						is_other_valid = true; /* e.g. equalsNot minus nothing; "equals" is a prefix of "equalsNot" but never equal to a variant here */
+					}
+				}
+				if (is_other_valid) {
+					continue;
+				}
+				char rule[200], label[80];
+				static const char *const OPERANDS[] = {"\"a\"", "true", "[\"a\"]"};
+				for (int o = 0; o < 3; o++) {
+					snprintf(label, sizeof(label), "near-miss-name:%s", VALID[v]);
+					snprintf(rule, sizeof(rule), "{\"%s\":%s}", names[k], OPERANDS[o]);
+					if (MINE()) {
+						check_raw(rule, 0, NULL, label);
+					}
+					snprintf(rule, sizeof(rule), "{\"equals\":\"a\",\"%s\":%s}", names[k], OPERANDS[o]);
+					if (MINE()) {
+						check_raw(rule, 0, NULL, label);
+					}
+					snprintf(rule, sizeof(rule), "{\"%s\":%s,\"startsWith\":\"A\"}", names[k], OPERANDS[o]);
+					if (MINE()) {
+						check_raw(rule, 0, NULL, label);
+					}
+				}
+			}
+		}
+	}
 	/* more matchers than the configured maximum: JSON objects may repeat a key, so 13 members are possible */
 	{
 		struct bytebuf b = {0};
@@ -678,6 +730,6 @@ const struct driver drv_c16 = {
     .name = "c16",
     .property = "C16",
     .run = run,
-    .rule = "12 states and 3 methods over paths {a, A, ab, aB, Ab, b, abc, bc, a/b, e-acute, E-acute, 300 x 'x', ma, Ma, xab}; operands = the 12 state paths plus the empty string and 301 x 'x'; every single matcher (5 names x 14 operands x 4 caseInsensitive forms), containsAllOf with every array of size 0..2 (thorough 0..3), every ordered pair of distinct single-operand matchers x operands x {case-sensitive, caseInsensitive}, (thorough) all triples over 5 operands, all six matchers at once, 18 malformed rule shapes, 13 matchers, 4 repeated-option forms; each rule is sent as get and as fetch+unfetch in one long daemon session per chunk and compared with a byte-wise reference matcher with ASCII-only folding; transitions = rules checked; every execution (chunk) is non-trivial",
+    .rule = "12 states and 3 methods over paths {a, A, ab, aB, Ab, b, abc, bc, a/b, e-acute, E-acute, 300 x 'x', ma, Ma, xab}; operands = the 12 state paths plus the empty string and 301 x 'x'; every single matcher (5 names x 14 operands x 4 caseInsensitive forms), containsAllOf with every array of size 0..2 (thorough 0..3), every ordered pair of distinct single-operand matchers x operands x {case-sensitive, caseInsensitive}, (thorough) all triples over 5 operands, all six matchers at once, 18 malformed rule shapes, near-miss member names (every valid name with a character appended / removed / blank / other case, alone and next to valid matchers, 3 operand types), 13 matchers, 4 repeated-option forms; each rule is sent as get and as fetch+unfetch in one long daemon session per chunk and compared with a byte-wise reference matcher with ASCII-only folding; transitions = rules checked; every execution (chunk) is non-trivial",
     .assumptions = "an empty containsAllOf array may be refused or match everything|a non-boolean caseInsensitive value is not judged|the long session never disconnects: leaks are detected through the accounted heap after fetch+unfetch",
 };
